@@ -399,12 +399,18 @@ void SimpleString::replace(char to, char with)
 
 void SimpleString::replace(const char* to, const char* with)
 {
-    size_t c = count(to);
+    size_t tolen = StrLen(to);
+    if (tolen == 0) {
+        return;
+    }
+    size_t c = 0;
+    for (const char* next = StrStr(getBuffer(), to); next; next = StrStr(next + tolen, to)) {
+        c++;
+    }
     if (c == 0) {
         return;
     }
     size_t len = size();
-    size_t tolen = StrLen(to);
     size_t withlen = StrLen(with);
 
     size_t newsize = len + (withlen * c) - (tolen * c) + 1;
